@@ -26,7 +26,12 @@ def new_run():
                "config context is read before and after every validate; targeted workloads: "
                "Index check failing below a row with a column error under drop_invalid_rows, "
                "nulls created by coercion ('nan'/'NaT'/'None'/'' texts) in columns with a "
-               "default, falsy labels; "
+               "default, falsy labels, a Column with a custom parser that still fails a check on one "
+               "row under drop_invalid_rows while another row survives with a raw value its parser "
+               "changes, two row-level errors of one schema component on different rows (two checks "
+               "of a column / null + value check / nulls in two columns of one regex column; pandas "
+               "and polars), MultiIndex(ordered=False) with coercing levels on data whose level "
+               "order differs from the schema's and whose levels accept each other's labels; "
                "non-trivial = validate returned an object while at least one parsing option "
                "was active; distinct = canonical hash of (backend, spec, table)",
                ["custom parsers are idempotent by construction (abs, clip, lower, strip)",
@@ -64,7 +69,7 @@ def str_parser_on_non_str_cells(spec, table):
         if fs.get("parser") in ("lower", "strip"):
             for c in table["columns"]:
                 if (c["name"] == fs["name"] or (fs.get("regex") and M_match(fs["name"], c["name"]))) \
-                        and (c["phys"] != "str" or any(
+                        and (c["phys"] != "object" or any(
                             v is not None and not isinstance(v, str) for v in c["values"])):
                     return True
     return False
@@ -156,6 +161,12 @@ def classify(spec, table, backend, kind, out2, diff=None, res=None):
                 return "column-parser-output-lost-when-column-fails-lazily"
         except Exception:
             pass
+    if backend == "pandas" and kind == "result-rejected-by-stripped-schema" and spec.get("drop_invalid_rows") \
+            and spec["kind"] == "frame" and reasons == ["DATAFRAME_CHECK"] and out2 is not None \
+            and all(any(c.get("parser") and c["name"] == e.column for c in spec["columns"])
+                    for e in out2.errors):
+        # the surviving rows carry the RAW values of a column with a parser
+        return "column-parser-output-lost-when-column-fails-lazily"
     if backend == "pandas" and kind == "result-rejected-by-stripped-schema" \
             and reasons == ["COLUMN_NOT_ORDERED"] and spec.get("add_missing_columns") \
             and spec.get("ordered") and any(c.get("regex") for c in spec["columns"]):
@@ -259,8 +270,8 @@ def pandas_case(run, spec, table, opts, muts):
         run.count("undecided:str-parser-on-non-str-cells-makes-nulls")
         return
     run.count("b:fixpoint_checked")
-    for o in ("coercion_made_nulls", "combo:index_error_below_column_error", "falsy_labels"):
-        if o in opts:
+    for o in opts:
+        if o in ("coercion_made_nulls", "falsy_labels") or o.startswith("combo:"):
             run.count(f"b:fixpoint_checked:{o}")
     if out3.kind == "exc":
         run.count("undecided:revalidation_raised_internal_exception(C06):" + H.exc_sig(out3.exc))
@@ -323,6 +334,9 @@ def polars_case(run, spec, table, opts, muts, lazyframe):
                       classify(spec, table, backend, "result-rejected-by-stripped-schema", out2, res=res))
         return
     run.count("b:fixpoint_checked")
+    for o in opts:
+        if o.startswith("combo:"):
+            run.count(f"b:fixpoint_checked:{backend}:{o}")
     if out3.kind == "exc":
         run.count("undecided:revalidation_raised_internal_exception(C06):" + H.exc_sig(out3.exc))
         return
@@ -349,10 +363,12 @@ def run(run, ctx):
         # run in a fresh thread (harness.pristine)
         r = rng.random()
         if r < 0.34:
-            spec, table, opts, muts = P.gen_parse_case(rng, neutral=True, neutral_regex=True)
+            spec, table, opts, muts = P.gen_parse_case(rng, neutral=True, neutral_regex=True,
+                                                       same_component_p=0.25)
             polars_case(run, spec, table, opts, muts, lazyframe=rng.random() < 0.5)
         else:
-            spec, table, opts, muts = P.gen_parse_case(rng, index_combo_p=0.12)
+            spec, table, opts, muts = P.gen_parse_case(rng, index_combo_p=0.12, parser_combo_p=0.15,
+                                                       same_component_p=0.05, unordered_mi_p=0.05)
             pandas_case(run, spec, table, opts, muts)
         C.report_context_leaks(run, {"case": i})
     C.finish_context_monitor(run)
@@ -368,5 +384,9 @@ def finalize(run, ctx):
                     ("b:fixpoint_checked:coercion_made_nulls", 15),
                     ("b:fixpoint_checked:combo:index_error_below_column_error", 9),
                     ("b:fixpoint_checked:falsy_labels", 70),
+                    ("b:fixpoint_checked:combo:parser_column_fails_lazily", 8),
+                    ("b:fixpoint_checked:combo:same_component_errors", 7),
+                    ("b:fixpoint_checked:polars:combo:same_component_errors", 9),
+                    ("b:fixpoint_checked:combo:unordered_multiindex_coerced", 10),
                     ("config_monitor:validate_calls_bracketed", 1800)]:
         run.floors[name] = m
